@@ -196,23 +196,41 @@ class Exec:
                     return
                 self.cv.wait(0.01)
 
-    def _pick(self, kind: str, all_completed: bool) -> List[Tok]:
+    def _pick(self, kind: str, all_completed: bool) -> List[List[Tok]]:
+        """Stages of nodes to release.  FIRST_COMPLETED: one stage (a drawn non-empty subset of the awaited
+        kind plus a drawn subset of the other kind).  ALL_COMPLETED: every node of the awaited kind, one per
+        stage in a drawn order, so that the state in between (the scheduler is still blocked although some
+        of the awaited nodes are done) is observable."""
         gated = sorted(self._gated(), key=lambda t: (t.site or "", t.n))
         prim = [t for t in gated if t.kind == kind]
         oth = [t for t in gated if t.kind != kind]
         if not prim:
             # nothing of the awaited kind can be released by us: open everything (degenerate / foreign tree)
-            return gated
+            return [gated] if gated else []
         if all_completed:
             c = self._next_choice(2 ** len(oth))
-            pmask, omask = (1 << len(prim)) - 1, c
-        else:
-            np_ = (1 << len(prim)) - 1
-            c = self._next_choice(np_ * (2 ** len(oth)))
-            pmask, omask = c % np_ + 1, c // np_
+            extra = [t for i, t in enumerate(oth) if c >> i & 1]
+            order = list(prim)
+            stages: List[List[Tok]] = []
+            while order:
+                k = self._next_choice(len(order))
+                stages.append([order.pop(k)])
+            stages[0].extend(extra)
+            return stages
+        np_ = (1 << len(prim)) - 1
+        c = self._next_choice(np_ * (2 ** len(oth)))
+        pmask, omask = c % np_ + 1, c // np_
         out = [t for i, t in enumerate(prim) if pmask >> i & 1]
         out += [t for i, t in enumerate(oth) if omask >> i & 1]
-        return out
+        return [out]
+
+    def _release_stages(self, stages: List[List[Tok]], e: Dict[str, Any]) -> None:
+        done: List[Any] = []
+        for i, st in enumerate(stages):
+            self._release(st)
+            done.extend(t.site for t in st)
+            if i < len(stages) - 1:
+                self.ev("WAITSTEP", of=e["seq"], kind=e["kind"], done=list(done))
 
     def _release(self, toks: List[Tok]) -> None:
         with self.cv:
@@ -257,7 +275,7 @@ class Exec:
                 inflight=self._inflight_sites(),
             )
             if need:
-                self._release(self._pick("thread", return_when == cf.ALL_COMPLETED))
+                self._release_stages(self._pick("thread", return_when == cf.ALL_COMPLETED), e)
             res = self._real_wait_loop(fs, timeout, return_when)
             self._observe_thread(res[0], e)
             return res
@@ -325,7 +343,7 @@ class Exec:
                 inflight=self._inflight_sites(),
             )
             if need:
-                self._release(self._pick("async", return_when == asyncio.ALL_COMPLETED))
+                self._release_stages(self._pick("async", return_when == asyncio.ALL_COMPLETED), e)
             # make the loop notice every async node that has finished in the pool
             end = time.monotonic() + 5.0
             while True:
@@ -535,7 +553,7 @@ def _watchdog_loop() -> None:
                 with ex.cv:
                     ex.abort = True
                     ex.cv.notify_all()
-            elif ex.stalled is not None and now - ex.stalled["t"] > STALL_S and not ex.stalled.get("killed"):
+            elif ex.stalled is not None and now - ex.stalled["t"] > 3.0 and not ex.stalled.get("killed"):
                 ex.stalled["killed"] = True
                 if ex.sched_thread is not None:
                     ctypes.pythonapi.PyThreadState_SetAsyncExc(
